@@ -136,6 +136,8 @@ static void case_regression(vh_ctx *c)
   regref o;
   double r2, mse, rmse, mae, bias;
 
+  /* a location far above the spread (third seeded wave, side PRNG stream): a one-pass sum of squares cancels there, the definition does not */
+  { vh_ctx cc = *c; cc.s[1] ^= 0x94D049BB133111EBULL; (void)vh_u64(&cc); (void)vh_u64(&cc); if (vh_coin(&cc, 0.1)) { loc = (vh_coin(&cc, 0.5) ? 1 : -1) * scale * pow(10.0, vh_range(&cc, 3.0, 7.0)); vh_obs("regression_pairs_with_a_far_location", 1); } }
   nmiss = gen_reg(c, n, scale, loc, flavour, noise, yt, yp);
   vh_class(c, "reg-n%s-e%d-%s-miss%s-loc%s", n < 4 ? "2-3" : n < 10 ? "4-9" : n < 50 ? "10-49" : "50-200", (int)floor(e10 / 3.0) * 3, FLAV[flavour],
            nmiss == 0 ? "0" : 10 * nmiss <= n ? "<=10%" : "<=20%", loc == 0 ? "0" : fabs(loc) < 3 * scale ? "<3sd" : ">=3sd");
@@ -471,7 +473,7 @@ static void case_tables(vh_ctx *c)
     DelMatrix(&yt0); DelMatrix(&yp0);
   }
   else {
-    tensor *t_roc, *t_pr;
+    tensor *t_roc, *t_pr; int want = 15;
     matrix *m_auc, *m_ap;
     int ok = 1;
     for (j = 0; j < ny && ok; j++) for (a = 0; a < nlv && ok; a++) {
@@ -492,19 +494,27 @@ static void case_tables(vh_ctx *c)
     vh_desc(c, "PLSDiscriminantAnalysisStatistics n=%zu ny=%zu nlv=%zu s00=%.17g", n, ny, nlv, yp->data[0][0]);
     if (!ok) { vh_skip(c, "could not draw tie-free scores"); goto out; }
     initTensor(&t_roc); initTensor(&t_pr); initMatrix(&m_auc); initMatrix(&m_ap);
-    PLSDiscriminantAnalysisStatistics(yt, yp, t_roc, m_auc, t_pr, m_ap);
-    if (m_auc->row != nlv || m_auc->col != ny || m_ap->row != nlv || m_ap->col != ny)
-      vh_fail(c, "PLSDiscriminantAnalysisStatistics|table-shape", "AUC table %zux%zu, AP table %zux%zu for nlv=%zu ny=%zu", m_auc->row, m_auc->col, m_ap->row, m_ap->col, nlv, ny);
+    /* every output of the routine is optional (NULL): any non-empty subset may be requested, and a requested table must not depend on
+       which other outputs were asked for (third seeded wave; side PRNG stream) */
+    { vh_ctx cc = *c; cc.s[0] ^= 0x2545F4914F6CDD1DULL; (void)vh_u64(&cc); (void)vh_u64(&cc); want = (int)vh_int(&cc, 1, 15); if (vh_coin(&cc, 0.4)) want = 15; }
+    vh_hist("plsda_outputs_requested_mask", want);
+    PLSDiscriminantAnalysisStatistics(yt, yp, (want & 1) ? t_roc : NULL, (want & 2) ? m_auc : NULL, (want & 4) ? t_pr : NULL, (want & 8) ? m_ap : NULL);
+    if (((want & 2) && (m_auc->row != nlv || m_auc->col != ny)) || ((want & 8) && (m_ap->row != nlv || m_ap->col != ny)))
+      vh_fail(c, "PLSDiscriminantAnalysisStatistics|table-shape", "AUC table %zux%zu, AP table %zux%zu for nlv=%zu ny=%zu (outputs requested: mask %d)", m_auc->row, m_auc->col, m_ap->row, m_ap->col, nlv, ny, want);
     else for (a = 0; a < nlv; a++) for (j = 0; j < ny; j++) {
       rankref r;
       double pairs, d;
       for (i = 0; i < n; i++) { ct[i] = yt->data[i][j]; cp[i] = yp->data[i][ny * a + j]; }
       rank_oracle(ct, cp, n, &r);
       pairs = (double)r.np * (double)r.nn;
-      d = fabs(m_auc->data[a][j] * pairs - (double)r.mw) / pairs; vh_max("max_auc_vs_mannwhitney", d);
-      if (!(d <= AREA_TOL)) vh_fail(c, "PLSDiscriminantAnalysisStatistics|AUC-table", "entry (%zu,%zu)=%.17g but Mann-Whitney %.17Lg", a, j, m_auc->data[a][j], r.mw / (ld)pairs);
-      d = fabs(m_ap->data[a][j] - (double)r.ap); vh_max("max_pr_area_dev", d);
-      if (!(d <= AREA_TOL)) vh_fail(c, "PLSDiscriminantAnalysisStatistics|AP-table", "entry (%zu,%zu)=%.17g but reference area %.17Lg", a, j, m_ap->data[a][j], r.ap);
+      if (want & 2) {
+        d = fabs(m_auc->data[a][j] * pairs - (double)r.mw) / pairs; vh_max("max_auc_vs_mannwhitney", d);
+        if (!(d <= AREA_TOL)) vh_fail(c, "PLSDiscriminantAnalysisStatistics|AUC-table", "entry (%zu,%zu)=%.17g but Mann-Whitney %.17Lg (outputs requested: mask %d)", a, j, m_auc->data[a][j], r.mw / (ld)pairs, want);
+      }
+      if (want & 8) {
+        d = fabs(m_ap->data[a][j] - (double)r.ap); vh_max("max_pr_area_dev", d);
+        if (!(d <= AREA_TOL)) vh_fail(c, "PLSDiscriminantAnalysisStatistics|AP-table", "entry (%zu,%zu)=%.17g but reference area %.17Lg (outputs requested: mask %d)", a, j, m_ap->data[a][j], r.ap, want);
+      }
       rank_free(&r);
       vh_obs("plsda_table_entries", 1);
     }
